@@ -357,8 +357,36 @@ def r3_threading(ctx, rule, entries=(ENTRY,), floor=8):
     ctx.floor(rule, PGF, n, floor, 'budgeted emitter call sites')
 
 
+def r4_limit_writers(ctx, rule):
+    """The budget is what the user gave on the command line of THIS run: nobody else writes program_info['limit'];
+    and nothing re-binds sys.stdout."""
+    closure = ctx.resolver.closure([ENTRY])
+    n = 0
+    bad = False
+    for q, fn in ctx.repo.all_funcs():
+        rel = q.partition('::')[0]
+        if rel not in closure:
+            continue
+        for node in walk_local(fn):
+            if isinstance(node, (ast.Assign, ast.AugAssign)):
+                tgts = node.targets if isinstance(node, ast.Assign) else [node.target]
+                for t in tgts:
+                    if isinstance(t, ast.Subscript) and const(t.slice) == 'limit' and 'program_info' in U(t.value):
+                        n += 1
+                        if q != ENTRY + '::parse_command_line' or U(node.value) != 'args.limit':
+                            bad = True
+                            ctx.bad(rule, q, "program_info['limit'] = %s" % U(node.value)[:50],
+                                    'the number of guesses to write is the --limit of this invocation; a value restored from a '
+                                    'save file (or computed elsewhere) silently replaces what the user asked for', None, node)
+                    if dotted(t) in ('sys.stdout', 'sys.__stdout__'):
+                        bad = True
+                        ctx.bad(rule, q, 'sys.stdout re-bound', 'the guess stream must stay on the real stdout', None, node)
+    if ctx.floor(rule, ENTRY, n, 1, "stores to program_info['limit']") and not bad:
+        ctx.ok(rule, ENTRY + '::parse_command_line', "program_info['limit'] is written only from args.limit; sys.stdout is never re-bound")
+
+
 def rules(tier):
-    return [('C09.R1', r1_single_stdout_writer), ('C09.R2', r2_pairing), ('C09.R3', r3_threading)]
+    return [('C09.R1', r1_single_stdout_writer), ('C09.R2', r2_pairing), ('C09.R3', r3_threading), ('C09.R4', r4_limit_writers)]
 
 
 META = {
